@@ -278,6 +278,82 @@ def m_deref(interp, args, info):
         return NotImplemented
     return t
 
+def _match_at(interp, pat, b, i):
+    """length of a match of the pattern at byte i of b (0 = none): char, &str, [char; N] / &[char], closure on char"""
+    from .interp import Clo, FnV, StrV
+    if isinstance(pat, Ptr):
+        pat = interp.load(pat)
+    if isinstance(pat, int) and not isinstance(pat, bool):
+        nd = chr(pat).encode("utf-8")
+        return len(nd) if b.startswith(nd, i) else 0
+    if isinstance(pat, StrV):
+        nd = pat.s.encode("utf-8")
+        return len(nd) if nd and b.startswith(nd, i) else 0
+    if isinstance(pat, (ListV, tuple)):
+        for x in (pat.items if isinstance(pat, ListV) else pat):
+            n = _match_at(interp, x, b, i)
+            if n:
+                return n
+        return 0
+    if isinstance(pat, (Clo, FnV)):
+        if not _is_boundary(b, i) or i >= len(b):
+            return 0
+        j = i + 1
+        while j < len(b) and (b[j] & 0xC0) == 0x80:
+            j += 1
+        r = interp.call_value(pat, [ord(b[i:j].decode("utf-8"))])
+        if not isinstance(r, bool):
+            raise Inconclusive("pattern closure answered %r" % (r,), interp.where())
+        return (j - i) if r else 0
+    raise Inconclusive("text pattern %r" % (pat,), interp.where())
+
+
+def _str_pieces(interp, t, pat, inclusive=False, terminator=False):
+    b = t.bytes()
+    pieces, pos, i = [], 0, 0
+    while i < len(b):
+        n = _match_at(interp, pat, b, i)
+        if n:
+            pieces.append(TextV(t.base, t.start + pos, t.start + (i + n if inclusive else i), "str"))
+            i += n
+            pos = i
+        else:
+            i += 1
+    if pos < len(b) or not (inclusive or terminator):
+        pieces.append(TextV(t.base, t.start + pos, t.start + len(b), "str"))
+    return pieces
+
+
+def m_str_split(interp, args, info):
+    t = _text(interp, args[0])
+    if t is None or t.kind != "str":
+        return NotImplemented
+    which = info["def"].rsplit("::", 1)[1]
+    ps = _str_pieces(interp, t, args[1], inclusive=(which == "split_inclusive"), terminator=(which in ("split_terminator", "rsplit_terminator")))
+    if which.startswith("rsplit"):
+        ps = list(reversed(ps))
+    return IterV("vec", ListV(ps))
+
+
+def m_str_matches(interp, args, info):
+    t = _text(interp, args[0])
+    if t is None or t.kind != "str":
+        return NotImplemented
+    which = info["def"].rsplit("::", 1)[1]
+    b = t.bytes()
+    out, i = [], 0
+    while i < len(b):
+        n = _match_at(interp, args[1], b, i)
+        if n:
+            piece = TextV(t.base, t.start + i, t.start + i + n, "str")
+            out.append((i, piece) if "indices" in which else piece)
+            i += n
+        else:
+            i += 1
+    if which.startswith("r"):
+        out.reverse()
+    return IterV("vec", ListV(out))
+
 
 _INSTALLED = []
 
@@ -304,6 +380,10 @@ def install():
     _wrap("core::slice::<impl [T]>::len", m_len)
     _wrap("core::str::<impl str>::find", m_find)
     _wrap("core::str::<impl str>::rfind", m_rfind)
+    for n in ("split", "rsplit", "split_inclusive", "split_terminator", "rsplit_terminator"):
+        _wrap("core::str::<impl str>::" + n, m_str_split)
+    for n in ("matches", "rmatches", "match_indices", "rmatch_indices"):
+        _wrap("core::str::<impl str>::" + n, m_str_matches)
     _wrap("core::slice::<impl [T]>::split", m_split)
     _wrap("core::slice::<impl [T]>::rsplit", m_rsplit)
     _wrap("std::string::String::len", m_len)
